@@ -147,18 +147,53 @@ func RoutingConcurrent(args []string) {
 		}
 		close(start)
 		wg.Wait()
-		// quiescence: no inbox grows for 300 ms
-		last, stable := -1, time.Now()
-		for time.Since(stable) < 300*time.Millisecond {
+		// wait for the messages themselves: every client's expected number of app messages and error reports
+		// (at most 10 s; a loaded machine delivers late), then a short quiet period for anything that must NOT come
+		expectApp := func(cl *rcClient) int {
 			n := 0
-			for _, cl := range clients {
-				n += len(cl.c.snapshot())
+			for _, other := range clients {
+				if other.sess != cl.sess || other == cl {
+					continue
+				}
+				for _, m := range plan[other.name] {
+					if m.bcast || m.to == cl.peer {
+						n++
+					}
+				}
 			}
-			if n != last {
-				last, stable = n, time.Now()
+			return n
+		}
+		expectErr := func(cl *rcClient) int {
+			n := 0
+			for _, m := range plan[cl.name] {
+				if m.to == "nobody" {
+					n++
+				}
+			}
+			return n
+		}
+		for deadline := time.Now().Add(10 * time.Second); time.Now().Before(deadline); {
+			all := true
+			for _, cl := range clients {
+				apps, errs := 0, 0
+				for _, e := range cl.c.snapshot() {
+					switch e.Type {
+					case "app":
+						apps++
+					case "error":
+						errs++
+					}
+				}
+				if apps < expectApp(cl) || errs < expectErr(cl) {
+					all = false
+				}
+			}
+			if all {
+				break
 			}
 			time.Sleep(10 * time.Millisecond)
 		}
+		time.Sleep(150 * time.Millisecond)
 		bySessPeer := map[string]*rcClient{}
 		for _, cl := range clients {
 			bySessPeer[cl.sess+"/"+cl.peer] = cl
